@@ -33,9 +33,13 @@ Definition should_retry (e : lerr) : bool := match e with ENotFound | EPermissio
 Record rcfg := { r_attempts : Z; r_base : Q; r_max : Q; r_factor : Q }.
 
 (* calculateDelay(attempt): base * factor^(attempt-1), capped *)
+(* a wait is never negative and never above the configured maximum (a negative maximum means no wait) *)
+Definition clampQ (d cap : Q) : Q :=
+  let d0 := if Qle_bool 0%Q d then d else 0%Q in
+  if Qle_bool d0 cap then d0 else (if Qle_bool 0%Q cap then cap else 0%Q).
+
 Definition delay (c : rcfg) (attempt : nat) : Q :=
-  let d := (r_base c * Qpower (r_factor c) (Z.of_nat (attempt - 1)))%Q in
-  if Qle_bool d (r_max c) then d else r_max c.
+  clampQ (r_base c * Qpower (r_factor c) (Z.of_nat (attempt - 1)))%Q (r_max c).
 
 (* the retry loop: [faults n] = outcome of attempt n (1-based) for (main, personal);
    returns the result, the number of attempts made, and the waits slept between them *)
